@@ -184,7 +184,9 @@ func RunStream(c *Ctx, cfg StreamCfg, handle func(w *Worker, sc StrCase, res *[s
 				}
 				return
 			}
-			switch k := r.Intn(20); {
+			switch k := r.Intn(23); {
+			case k >= 20:
+				do(w, StrCase{gen.Subsequence(r, v), vi, "subsequence"})
 			case k < 13:
 				s, _ := gen.RandomSpelling(r, v, a)
 				n := 1 + r.Intn(3)
